@@ -21,9 +21,14 @@ GrpcTimeouts == { <<>>, <<"0", "S">>, <<"0", "0", "0", "n">>, <<"1", "n">>, <<"5
                   \* more digits than the grammar allows, although the value is small
                   <<"0", "0", "0", "0", "0", "0", "0", "0", "5", "S">>, <<"0", "0", "0", "0", "0", "0", "0", "0", "0", "n">>,
                   \* ... also when the unit is hours and the value beyond what a duration holds
-                  <<"1", "2", "3", "4", "5", "6", "7", "8", "9", "H">>, <<"1", "0", "0", "0", "0", "0", "0", "0", "0", "0", "H">> }
+                  <<"1", "2", "3", "4", "5", "6", "7", "8", "9", "H">>, <<"1", "0", "0", "0", "0", "0", "0", "0", "0", "0", "H">>,
+                  \* hours around and beyond what a duration holds (2562047 h): products that wrap to negative and to positive
+                  <<"2", "5", "6", "2", "0", "4", "7", "H">>, <<"2", "5", "6", "2", "0", "4", "8", "H">>,
+                  <<"5", "1", "2", "4", "0", "9", "6", "H">>, <<"1", "0", "2", "4", "8", "1", "9", "2", "H">>,
+                  <<"7", "6", "8", "6", "1", "4", "4", "H">> }
 ConnectTimeouts == { <<>>, <<"0">>, <<"0", "0", "0", "0", "0", "0", "0", "0", "0", "0">>, <<"1">>, <<"5", "0", "0", "0">>, <<"3", "0", "0", "0", "0", "0">>,
                      <<"9", "9", "9", "9", "9", "9", "9", "9", "9", "9">>,
+                     <<"4", "2", "9", "4", "9", "6", "7", "2", "9", "5">>, <<"4", "2", "9", "4", "9", "6", "7", "2", "9", "6">>,
                      <<"a", "b", "c">>, <<"+", "5", "0", "0", "0">>, <<"-", "5", "0", "0", "0">>,
                      <<"5", "0", "0", "0", "m", "s">>, <<"5", ".", "5">>, <<" ", "5", "0", "0", "0">>,
                      <<"1", "2", "3", "4", "5", "6", "7", "8", "9", "0", "1">>, <<"0", "x", "1", "0">>,
